@@ -168,8 +168,8 @@ def _is_protocol(t):
 
 def _signatures(run):
     project = run.project
-    fs = project.fn(MT + ".MultiTanProcessor._tile_serial")
-    fw = project.fn(MT + "._mp_tile_worker")
+    fs = common.splice(project, project.fn(MT + ".MultiTanProcessor._tile_serial"))
+    fw = common.splice(project, project.fn(MT + "._mp_tile_worker"))
     run.note_func(fs, fw)
     ss, err_s, rs = _signature(project, fs, "serial")
     sw, err_w, rw = _signature(project, fw, "worker")
